@@ -224,6 +224,10 @@ func getResources(ignoreReallocatedTasks bool, pods ...*pod_info.PodInfo) *resou
 		if ignoreReallocatedTasks && pod_status.IsActiveAllocatedStatus(task.Status) {
 			continue
 		}
+		if pod_status.AllocatedStatus(task.Status) {
+			// the simulation put this potential victim back where it was: nothing is taken from its queue
+			continue
+		}
 		resources = append(resources, task.AcceptedResource)
 	}
 
